@@ -12,6 +12,16 @@ CHECKS = {
           "Generated search, not proof: thousands of frame sequences x segmentations per run, every encoder compared byte-for-byte with an independent reference encoder and every decoder with the original sequence; the finite sub-space of single cuts over boundary-length two-frame streams is enumerated completely.",
           "Trusts the harness's RFC-derived reference encoder/decoder; decoders run with MAXMSGSIZE=-1; COMMAND frames only through the encoders rzmq uses for commands.",
           "DESIGN.md §2 C03"),
+  "C04": ("exploration",
+          "property-based testing (proptest): metamorphic re-segmentation of reference-encoded peer transcripts against the engine (exhaustive single cuts per transcript + random cut sets), live engine pairs for all four mechanisms, and raw tcp/unix peers with controlled write boundaries against real sockets (sentinel-closed FIFO oracle)",
+          "Generated search over transcripts x segmentations; per transcript the single-cut space is enumerated completely at engine level; the stack level samples write boundaries around the end of the handshake on tcp and ipc, both roles, both runtimes.",
+          "NULL/PLAIN/v2 transcripts do not depend on rzmq's bytes (replayable); CURVE/NOISE are covered by live engine pairs only; stack cases rely on a 40 ms pause to force separate reads and on the sentinel for completeness; io_uring backend is covered under C20.",
+          "DESIGN.md §2 C04"),
+  "C05": ("exploration",
+          "property-based testing (proptest): engine pairs under generated delivery schedules with an EOF model, a harness ZMTP/2.0 speaker, and an exhaustive socket-type verdict matrix compared with the RFC pairing table (v3, v2, inproc)",
+          "Generated search over endpoint configurations x delivery schedules (thousands per run) with an independent statement of compatibility; the 8x11 verdict matrix is enumerated completely for ZMTP/3.x, ZMTP/2.0 and inproc.",
+          "Sans-IO: the driver models the link and EOF; pairing table per RFC 28-31/libzmq; known finding: inproc pairing table is narrower (suite pins DEALER-DEALER invalid).",
+          "DESIGN.md §2 C05"),
 }
 
 NOT_YET = {
